@@ -50,6 +50,7 @@ type Obligation struct {
 	Notes  []string
 	replayed bool
 	stage int
+	clause *Clause
 }
 
 type FnCtx struct {
@@ -89,6 +90,7 @@ type FnCtx struct {
 	anchors []*big.Int
 	convMemo map[string]string
 	i2fArgs, f2iArgs []string
+	forceSweep bool
 }
 
 type closureInfo struct {
@@ -337,6 +339,9 @@ func (f *FnCtx) translate() {
 		}
 		f.sweepTags = f.spec.SweepTags
 	}
+	if f.forceSweep && f.sweepTags == nil {
+		f.sweepTags = []string{"sweep"}
+	}
 	for pass := 0; pass < 2; pass++ {
 		f.dry = pass == 0
 		// reset per-pass state but keep loopFrames
@@ -410,7 +415,9 @@ func (f *FnCtx) runTop() {
 				f.fail("%s: ensures: %v", c.Line, err)
 				continue
 			}
-			f.oblige(ret.st, fnShortName(fn)+"#ensures:"+clauseLabel(c), "ensures", c.Tags, v, c.Src, c.Line)
+			if o := f.oblige(ret.st, fnShortName(fn)+"#ensures:"+clauseLabel(c), "ensures", c.Tags, v, c.Src, c.Line); o != nil {
+				o.clause = c
+			}
 		}
 	}
 	fr.checkTypeInvariants(ret.st)
